@@ -313,8 +313,8 @@ impl<'a> DeferredReader<'a> {
             self.buf
                 .copy_within(self.pos_in_buf..self.pos_in_buf + self.valid_len, 0);
             self.pos_of_buf = self.pos_of_buf.wrapping_add(self.pos_in_buf);
-            self.pos_in_buf = 0;
             self.mark_in_buf = self.mark_in_buf.wrapping_sub(self.pos_in_buf);
+            self.pos_in_buf = 0;
 
             // If our buffer is four times as large as it needs to be for the current data and an
             // additional chunk, shrink it.
